@@ -16,7 +16,7 @@
 From Coq Require Import List NArith Bool Arith Permutation Lia.
 Import ListNotations.
 Require Import MV.Common.Interleave MV.C05.Model MV.C05.Spec MV.C05.Exec.
-Require Import MV.C05.ProofsSeq MV.C05.ProofsInv MV.C05.ProofsCor MV.C05.ProofsUniq MV.C05.ProofsCons MV.C05.ProofsProg MV.C05.ProofsSnap MV.C05.ProofsEmpty MV.C05.ProofsOrder MV.C05.ProofsSpec MV.C05.ProofsTrace1 MV.C05.ProofsTrace2 MV.C05.ProofsTrace3.
+Require Import MV.C05.ProofsSeq MV.C05.ProofsInv MV.C05.ProofsCor MV.C05.ProofsUniq MV.C05.ProofsCons MV.C05.ProofsProg MV.C05.ProofsSnap MV.C05.ProofsEmpty MV.C05.ProofsOrder MV.C05.ProofsSpec MV.C05.ProofsTrace1 MV.C05.ProofsTrace2 MV.C05.ProofsTrace3 MV.C05.ProofsTrace4 MV.C05.ProofsTrace5.
 Local Open Scope nat_scope.
 
 (* (1) complete calls, run one after the other by any threads, are exactly the bag operations:
@@ -361,6 +361,54 @@ Proof.
   intros c. pose proof (spec_shape_on_model c) as H1. pose proof (no_double_clear_on_model c) as H2.
   pose proof (spec_reads_no_dup_on_model c) as H3. pose proof (spec_written_before_read_on_model c) as H4.
   unfold run_case, out_gen in *. destruct (run_gen BS true true c) as [cf tr]. auto.
+Qed.
+
+(* (10) second stage of the checker on the model.
+   FINDING ABOUT THE ORACLE (not the code): the statement
+     forall c, known_class c = None -> spec_ok c (run_case c) = true
+   is FALSE as it stands: Exec.final_data runs the final reader with a fuel of 400 rounds, so on a
+   case whose live chain has more than ~133 blocks (8700 pushes) the model's final read does not
+   finish, final = [] and clause S5 fails with done = true and known_class = None
+   (C05_spec_ok_on_model_needs_size_bound).  The full theorem therefore needs a size bound on the case.
+   Proved in this stage, on every case: the clauses about the FINAL read that do not depend on it
+   having finished (no duplicate, every value in the push table with a slot-write position) and
+   clause S4 (claim positions strictly increase along every slice: thread slices and final read).
+   STILL MISSING for the conjunction: S3 (snapshot / is_empty completeness on positions) and S5
+   (pushes = cleared + final), both under done, S5 also under known_class = None and a size bound. *)
+Theorem C05_spec_ok_on_model_needs_size_bound :
+  exists c, known_class c = None /\ spec_ok c (run_case c) = false.
+Proof. exact spec_ok_on_model_needs_size_bound. Qed.
+
+Theorem C05_spec_final_read_on_model : forall c : case,
+  let '(tr, _, _, final, _) := run_case c in
+  nodupb (concat final) = true /\ forallb (slice_genuine (pinfos tr 0 (progs_of c)) None) final = true.
+Proof. exact spec_final_read_on_model. Qed.
+
+Theorem C05_spec_claim_order_on_model : forall c : case,
+  let '(tr, rss, _, final, _) := run_case c in
+  forallb (fun rc => forallb (fun qs => slice_ordered (pinfos tr 0 (progs_of c)) (snd qs)) (rsl rc)) (rcalls tr 0 rss) = true /\
+  forallb (slice_ordered (pinfos tr 0 (progs_of c))) final = true.
+Proof. exact spec_claim_order_on_model. Qed.
+
+(* everything of spec_run except S3 and S5, on the model's run of every case *)
+Theorem C05_spec_ok_on_model_partial2 : forall c : case,
+  let '(tr, rss, done, final, anom) := run_case c in
+  let tbl := pinfos tr 0 (progs_of c) in
+  let rc := rcalls tr 0 rss in
+  (anom =? 0)%N && all2 follows (progs_of c) rss
+  && nodupb (flat_map handed (filter is_clear rc)) && forallb (fun c0 => nodupb (handed c0)) rc && nodupb (concat final)
+  && forallb (fun c0 => forallb (fun qs => slice_genuine tbl (fst qs) (snd qs) &&
+                                          match fst qs with Some _ => true | None => false end) (rsl c0)) rc
+  && forallb (slice_genuine tbl None) final
+  && forallb (fun c0 => forallb (fun qs => slice_ordered tbl (snd qs)) (rsl c0)) rc
+  && forallb (slice_ordered tbl) final = true.
+Proof.
+  intros c. pose proof (spec_shape_on_model c) as H1. pose proof (no_double_clear_on_model c) as H2.
+  pose proof (spec_reads_no_dup_on_model c) as H3. pose proof (spec_written_before_read_on_model c) as H4.
+  pose proof (spec_final_read_on_model c) as H5. pose proof (spec_claim_order_on_model c) as H6.
+  unfold run_case, out_gen in *. destruct (run_gen BS true true c) as [cf tr]. cbv zeta.
+  destruct H5 as [H5a H5b]. destruct H6 as [H6a H6b].
+  rewrite H1, H2, H3, H4, H5a, H5b, H6a, H6b. reflexivity.
 Qed.
 
 (* Block::len must be trailing_ones, not count_ones: in a reachable configuration where a snapshot
